@@ -346,6 +346,79 @@ def r7_nothing_filtered(ctx):
         r.anchor_missing("mapping calls in sos_database_upgrader (found %d)" % nmap)
 
 
+def r8_every_blob_copied(ctx):
+    """copy_file_blobs: every iteration of the per-file loop records the file
+    in the result (so delete_stale_files never removes a blob that was not
+    carried over) and, on a real run, reaches the copy; a `continue` in front of
+    them skips files silently."""
+    ws = ctx.ws
+    r = ctx.rule("C19-R8", "every external file of every account is copied and recorded by copy_file_blobs; FolderRecord::into_vault carries every stored header part",
+                 floor=2, kind="K2 must-pass-through inside the loop + K5 field coverage")
+    fns = ws.find_fns(r"^sos_database_upgrader::upgrader::copy_file_blobs$")
+    if not fns:
+        r.anchor_missing("upgrader::copy_file_blobs")
+    else:
+        f = fns[0]
+        for b in f.bodies:
+            live = cfg.live_blocks(b)
+            pushes = [i for i, t in idioms.real_calls(b, live) if cname(t) == "push"]
+            copies = [i for i, t in idioms.real_calls(b, live) if cname(t) in ("copy", "copy_buf", "write_all", "rename") and re.search(r"(io::|fs::|vfs)", t.get("callee") or "")]
+            if not pushes:
+                continue
+            loops = []
+            for i, t in b.calls():
+                if i not in live or cname(t) != "next" or not (t.get("macro") or "").endswith("ForLoop"):
+                    continue
+                es = cfg.enum_switch(b, t.get("t")) if t.get("t") is not None else None
+                if not es or "Some" not in es.targets:
+                    continue
+                inside = cfg.reach(b, [es.targets["Some"]], cut_blocks=[i])
+                if set(pushes) & inside:
+                    loops.append((len(inside), i, es, inside))
+            # the innermost loop around the push is the per-file loop
+            for (_sz, i, es, inside) in sorted(loops)[:1]:
+                k = f.root + "|every-file-recorded"
+                if i in cfg.reach(b, [es.targets["Some"]], cut_blocks=pushes):
+                    p_ = cfg.find_path(b, [es.targets["Some"]], [i], cut_blocks=pushes)
+                    r.violation(k, cfg.loc(b, pushes[0]), "an iteration of the per-file loop can finish without recording (and copying) the file: files are skipped while the upgrade reports success and the originals are then deleted", work=len(live), witness=cfg.path_lines(b, p_))
+                else:
+                    r.ok(k, cfg.loc(b, pushes[0]), "every iteration pushes the (source, dest) pair", work=len(live))
+                k2 = f.root + "|copy-before-record"
+                if not copies:
+                    r.violation(k2, cfg.loc(b, pushes[0]), "copy_file_blobs no longer copies the blob", work=len(live))
+                else:
+                    # a path from the loop body to the push that avoids the copy must pass the dry-run edge
+                    dry = set()
+                    fg_ = FlowGraph(ws, f)
+                    for j in sorted(inside):
+                        bs = cfg.bool_switch(b, j)
+                        if bs and fg_.back([(b.path, bs.local)]).reads_field("dry_run"):
+                            dry.add((bs.block, bs.true_t))
+                            dry.add((bs.block, bs.false_t))
+                    r1 = cfg.reach(b, [es.targets["Some"]], cut_blocks=copies + [i], cut_edges=set())
+                    # allowed: paths through exactly the dry-run skip edge; find which edge skips the copy
+                    skip_edges = {e for e in dry if not (set(copies) & cfg.reach(b, [e[1]], cut_blocks=[i] + pushes))}
+                    r2 = cfg.reach(b, [es.targets["Some"]], cut_blocks=copies + [i], cut_edges=skip_edges)
+                    if set(pushes) & r2:
+                        r.violation(k2, cfg.loc(b, copies[0]), "on a real run the pair can be recorded without the blob having been copied", work=len(live))
+                    else:
+                        r.ok(k2, cfg.loc(b, copies[0]), "recorded only after the copy (or on the dry-run edge)", work=len(live))
+    fr = ws.find_fns(r"^sos_database::entity::folder::FolderRecord::into_vault$")
+    adt = ws.adts.get("sos_database::entity::folder::FolderRecord")
+    if not fr or not adt:
+        r.anchor_missing("FolderRecord::into_vault")
+        return
+    fields = [x["name"] for x in adt["variants"][0]["fields"]]
+    bookkeeping = {"row_id": "database key", "created_at": "row timestamp", "modified_at": "row timestamp"}
+    rd, _w = idioms.fields_touched(ws, fr[0], "sos_database::entity::folder::FolderRecord")
+    miss = [x for x in fields if x not in rd and x not in bookkeeping]
+    k = fr[0].root + "|carries-header"
+    if miss:
+        r.violation(k, cfg.loc(fr[0].main), "FolderRecord::into_vault never reads `%s`: the vault the database backend unlocks lacks it (with the seed missing the key derives differently and the upgraded account can no longer be opened)" % "`, `".join(miss), work=len(fields))
+    else:
+        r.ok(k, cfg.loc(fr[0].main), "reads %s" % sorted(set(fields) - set(bookkeeping)), work=len(fields))
+
+
 def run(ctx):
     ctx.explanation = (
         "Guard, order and coverage rules over the upgrader: (R1) every creating/destructive call in the upgrader module "
@@ -363,3 +436,4 @@ def run(ctx):
     r5_loops_visit_every_item(ctx)
     r6_account_paths(ctx)
     r7_nothing_filtered(ctx)
+    r8_every_blob_copied(ctx)
